@@ -299,7 +299,7 @@ def parse_block(txt):
 
 
 def run_kani(cwd, package, target_dir, names, jobs, harness_timeout, mem_gb, total_timeout,
-             extra=None, logfile=None, exact=False):
+             extra=None, logfile=None, exact=False, cbmc_args=None):
     """One cargo-kani invocation deciding all `names` (substring filters), `jobs` in parallel."""
     t0 = time.time()
     args = []
@@ -313,6 +313,8 @@ def run_kani(cwd, package, target_dir, names, jobs, harness_timeout, mem_gb, tot
     else:
         args += extra
     cmd = kani_cmd(package, target_dir, args)
+    if cbmc_args:
+        cmd += ['--cbmc-args'] + cbmc_args
     timed_out = False
     try:
         p = subprocess.Popen(cmd, cwd=cwd, env=ENV, stdout=subprocess.PIPE,
@@ -337,6 +339,38 @@ def run_kani(cwd, package, target_dir, names, jobs, harness_timeout, mem_gb, tot
     return {'out': out, 'rc': rc, 'wall_s': time.time() - t0, 'timed_out': timed_out,
             'built': 'Checking harness' in out or 'Manual Harness Summary' in out
                      or 'No proof harnesses' in out}
+
+
+def find_mangled(cwd, package, target_dir, names, fn_pretty, exact, logfile):
+    """Compile (codegen only) and look the mangled symbol of `fn_pretty` up in Kani's
+    pretty_name_map.json files."""
+    args = []
+    for n in names:
+        args += ['--harness', n]
+    if exact:
+        args += ['--exact']
+    args += ['--only-codegen']
+    p = subprocess.run(kani_cmd(package, target_dir, args), cwd=cwd, env=ENV, stdout=subprocess.PIPE,
+                       stderr=subprocess.STDOUT, text=True)
+    if logfile:
+        open(logfile, 'w').write(p.stdout)
+    newest = None
+    for root, _, files in os.walk(target_dir):
+        for fn in files:
+            if fn.endswith('.pretty_name_map.json'):
+                fp = os.path.join(root, fn)
+                if newest is None or os.path.getmtime(fp) > os.path.getmtime(newest):
+                    newest = fp
+    if not newest:
+        return None
+    try:
+        d = json.load(open(newest))
+    except Exception:
+        return None
+    for k, v in d.items():
+        if v == fn_pretty:
+            return k
+    return None
 
 
 def classify(r, expect, want_covers=None):
